@@ -27,7 +27,7 @@ ASSUMPTIONS = ['hash(molecule) is excluded: it hashes a string and legitimately 
 
 
 def shards(tier, seed):
-    return [dict(kind='all', n=320 if tier == 'quick' else 4200)]
+    return [dict(kind='all', n=260 if tier == 'quick' else 4200)]
 
 
 def run_shard(shard, tier, seed):
@@ -37,6 +37,7 @@ def run_shard(shard, tier, seed):
         specs.append(case)
     strat = molgen.mol_specs(max_atoms=14, corpus_w=6, curated_w=3, graph_w=4, literal_w=1, sym_w=3)
     hyp_run(ID, strat, collect, max_examples=shard['n'], seed=seed * 1000 + 1)
+    specs.extend({'k': 'smi', 's': s} for s in molgen.curated())  # the curated list is always swept completely
     rec = Recorder(ID)
     rec.collect = True
     hs = [0, 1, 4294967295] + [(seed * 7919 + k * 104729) % 4294967295 for k in (1, 2, 3)]
